@@ -300,7 +300,7 @@ namespace Givaro {
             if (degA >= degB) {
                 return mul(F, S1, A);
             } else {
-                return mul(F, T1, B);
+                return mul(F, S1, B); // here F,G were (B,A): S1 is the cofactor of B
             }
         } else {
             return mul(F, A, B);
